@@ -491,7 +491,7 @@ func Run(r *fw.Run) {
 
 	// the CLI's -f FILE: the file (which exists already and is longer) must hold exactly the encoding of the result
 	if bin := os.Getenv("VERIF_CLI_BIN"); bin != "" {
-		famC := c04.Family(false)
+		famC := c04.Family(true)
 		fw.Explore(r, "cli-output-file", fw.Full, func(c *fw.Ctx) [3]int {
 			return [3]int{c.Choose(2, "list | diff"), c.Choose(6, "world"), c.Choose(5, "format")}
 		}, func(p [3]int, x *fw.Rec) {
@@ -555,7 +555,7 @@ func Run(r *fw.Run) {
 	}
 
 	// diff formats over pairs of the C04 family
-	fam := c04.Family(false)
+	fam := c04.Family(true)
 	fw.Explore(r, "diff/pairs", fw.Full, func(c *fw.Ctx) [2]int {
 		a, b := c.Choose(len(fam), "world A"), c.Choose(len(fam), "world B")
 		c.Stride(map[bool]int{true: 60, false: 6}[q])
